@@ -191,10 +191,12 @@ def blockwise(
         # For each dimension, use the input chunking that has the most blocks;
         # this will ensure that broadcasting works as expected, and in
         # particular the number of blocks should be correct if the inputs are
-        # consistent.
+        # consistent.  A dimension of length one in a single chunk is broadcast
+        # against the other inputs, so it never determines the output chunks
+        # when another input has that dimension.
         for arg, ind in arginds:
             for c, i in zip(arg.chunks, ind):
-                if i not in chunkss or len(c) > len(chunkss[i]):
+                if i not in chunkss or len(c) > len(chunkss[i]) or chunkss[i] == (1,):
                     chunkss[i] = c
         arrays = args[::2]
 
